@@ -1192,6 +1192,7 @@ func genC09() {
 	}
 	b.WriteString("end Hertz.Gen.Resets\n")
 	write("Resets.lean", b.String())
+	genC09Sites() // acquire/release sites of the pooled objects (c09sites.go)
 }
 
 type c09Func struct {
